@@ -21,6 +21,7 @@ class Boom13(Exception):
     pass
 
 
+UNIQ = [0]
 FAIL_NOW = set()    # (instance tag, node): setup nodes that raise when entered (an operation that fails for an outside reason)
 
 
@@ -172,6 +173,19 @@ def gen_ops(rng, sc, length, kinds):
         xobj_inst.append(0)
         ops.append(rng.choice([dict(op="setup", inst=0, T=None), dict(op="call", inst=0, args=a0),
                                dict(op="setup", inst=0, T=sorted(rng.sample(range(n), 1)))]))
+        ops.append(dict(op="xrun", inst=0, xid=0, args=a0))
+    elif "cache" in kinds and "xmk" in kinds and rng.random() < 0.15:
+        # directed: the restart object is built BEFORE its file exists; a caching run writes the file; the object is called:
+        # the file is read when the object is CALLED
+        UNIQ[0] += 1
+        slot_ = 100 + UNIQ[0]
+        a0 = rng.choice([(1,), (2, 3), (5, 6)])
+        ops.append(dict(op="xmk", inst=0, T=None if rng.random() < 0.5 else sorted(rng.sample(range(n), rng.randint(1, min(3, n)))),
+                        xid=0, from_slot=slot_, early=True))
+        xobj_inst.append(0)
+        ops.append(dict(op="cache", inst=0, mode=rng.choice(["whole", "target", "deps"]),
+                        T=sorted(rng.sample(range(n), rng.randint(1, min(2, n)))), args=a0,
+                        restart=rng.choice(["same", "whole"]), omit_default=rng.random() < 0.5, slot=slot_))
         ops.append(dict(op="xrun", inst=0, xid=0, args=a0))
     if "setupsel" in kinds and rng.random() < 0.15:
         # directed: an EMPTY selection first (it selects nothing; it is not "no selection"), on a cold instance
@@ -338,7 +352,7 @@ def run_history(sc, ops):
             T = op["T"]
             sel = list(range(n)) if T is None else anc_closure(sc, T)
             fs_ = op.get("from_slot")
-            if fs_ is not None and fs_ in ok_slots:
+            if fs_ is not None and (fs_ in ok_slots or op.get("early")):
                 # restart object: the file is read when the object is CALLED, together with the DAG's results of that moment
                 execs[op["xid"]] = (d.executor(target_nodes=None if T is None else ids(T), from_cache=cache_slot(fs_)), T)
                 extra = " C %d" % fs_
